@@ -11,7 +11,7 @@ packet, mixed), recursively for nested packets, in the generic and the generated
   * unpack(pack()) must succeed, end where the model ends (whole string traversed) and yield
     an equal value tree; assert_consistency() must be True.
 """
-from .. import common, driver, harness, model, monitors, render
+from .. import predicates, common, driver, harness, model, monitors, render
 from ..common import rng_for, b2j
 from .c12 import mutate_tree
 
@@ -270,7 +270,9 @@ def run(run):
                            moves={"at": 7, "shift": 3, "aligned": 1}, kinds={"int": 55, "data": 35, "bits": 4, "ref": 5, "sel": 0, "em": 1},
                            int_widths=[1, 1, 2, 2, 3, 4])
         for bench in itertools.chain(driver.families(run, rng, profile, VARIANTS, nfam, instrument=(), tag="c02"),
-                                     driver.families(run, rng, sel_profile, VARIANTS, nfam // 3, instrument=(), tag="c02s"),
+                                     driver.families(run, rng, sel_profile, VARIANTS, nfam // 4, instrument=(), tag="c02s"),
+                                     driver.families(run, rng, dict(sel_profile, accept=predicates.shares_a_literal, min_fields=4), VARIANTS, nfam // 10,
+                                                     instrument=(), tag="c02sl"),
                                      driver.families(run, rng, pos_profile, VARIANTS, nfam // 3, instrument=(), tag="c02p")):
             fam = bench.fam
             if any("share" in f for d in fam["decls"].values() for f in d["fields"]):
